@@ -21,6 +21,8 @@ func ruleC14(prog *Program, rep *Report) {
 	ruleSiblingGuard(prog, rep, []string{"jp"})
 	ruleElideGuard(prog, rep)
 	rulePrecAgree(prog, rep)
+	ruleHexFn(prog, rep)
+	ruleFloatBits(prog, rep, "jp") // a float64 constant printed with 32 bits re-parses as another number
 }
 
 // escape reader of the jp parser: the function that has a switch on a byte
